@@ -182,6 +182,12 @@ class NarwhalsMaterializer(FormulaMaterializer):
                 )
         return out
 
+    def _with_index_of_data(self, df: Any, drop_rows: Sequence[int]) -> Any:
+        # The rows of a pandas frame keep their index labels.
+        if isinstance(df, pandas.DataFrame) and isinstance(self.data, pandas.DataFrame):
+            df.index = self.data.index.delete(list(drop_rows))
+        return df
+
     @override
     def _combine_columns(
         self, cols: Sequence[tuple[str, Any]], spec: ModelSpec, drop_rows: Sequence[int]
@@ -196,7 +202,7 @@ class NarwhalsMaterializer(FormulaMaterializer):
                 return nw.from_native(values, eager_only=True)
             if spec.output == "numpy":
                 return values
-            return pandas.DataFrame(values)
+            return self._with_index_of_data(pandas.DataFrame(values), drop_rows)
 
         # Otherwise, concatenate columns into model matrix
         if spec.output == "sparse":
@@ -211,10 +217,10 @@ class NarwhalsMaterializer(FormulaMaterializer):
         if spec.output == "narwhals":
             if nw.dependencies.is_narwhals_dataframe(self.data):
                 return combined
-            return combined.to_native()
+            return self._with_index_of_data(combined.to_native(), drop_rows)
         if spec.output == "pandas":
             df = combined.to_pandas()
-            return df
+            return self._with_index_of_data(df, drop_rows)
         if spec.output == "numpy":
             return combined.to_numpy()
         raise ValueError(f"Invalid output type: {spec.output}")
